@@ -159,6 +159,129 @@ def run_one(smt2, timeout_s, use_cvc5=True):
     return res
 
 
+def symbols(t, _cache={}):
+    """names of uninterpreted constants / functions occurring in a term"""
+    key = t.get_id()
+    if key in _cache:
+        return _cache[key]
+    out = set()
+    seen = set()
+    stack = [t]
+    while stack:
+        x = stack.pop()
+        i = x.get_id()
+        if i in seen:
+            continue
+        seen.add(i)
+        if z3.is_quantifier(x):
+            stack.append(x.body())
+            continue
+        if z3.is_app(x):
+            d = x.decl()
+            if d.kind() == z3.Z3_OP_UNINTERPRETED:
+                out.add(d.name())
+            stack.extend(x.children())
+    _cache[key] = out
+    return out
+
+
+def cone(hyps, goal, level):
+    """relevance filter. level 0: hyps over the goal's symbols only; 1: hyps sharing a symbol with the goal"""
+    gs = set(symbols(goal))
+    if level == 0:
+        return [h for h in hyps if symbols(h) and symbols(h) <= gs]
+    return [h for h in hyps if symbols(h) & gs]
+
+
+def _subst(terms, cand):
+    pairs = []
+    for name, v in cand.items():
+        if isinstance(v, bool):
+            pairs.append((z3.Bool(name), z3.BoolVal(v)))
+        elif isinstance(v, int):
+            pairs.append((z3.Int(name), z3.IntVal(v)))
+            pairs.append((z3.Real(name), z3.RealVal(v)))
+        else:
+            pairs.append((z3.Real(name), z3.RealVal(str(v))))
+    return [z3.substitute(t, *pairs) for t in terms]
+
+
+def prepare_staged(hyps, opt, goal, cands=()):
+    """SMT-LIB texts for every stage, generated in the calling thread (the z3 API is not thread-safe)"""
+    texts = {"all": to_smt2(hyps, goal)}
+    for ci, cand in enumerate(cands):
+        allh = _subst(list(hyps) + list(opt or []), cand)
+        texts[f"cand{ci}"] = (to_smt2(allh, _subst([goal], cand)[0]), cand)
+    if opt:
+        texts["all+opt"] = to_smt2(list(hyps) + list(opt), goal)
+    for level in (0, 1):
+        for with_opt in (False, True):
+            if with_opt and not opt:
+                continue
+            pool = list(hyps) + (list(opt) if with_opt else [])
+            sub = cone(pool, goal, level)
+            if len(sub) == len(pool):
+                continue
+            texts[f"cone{level}" + ("+opt" if with_opt else "")] = to_smt2(sub, goal)
+    return texts
+
+
+def discharge_staged(texts, timeout_s, hint=None):
+    if hint and hint in texts:
+        r0 = run_one(texts[hint], timeout_s, use_cvc5=False)
+        if r0["verdict"] == "unsat":
+            r0["stage"] = hint + "(hint)"
+            return r0
+    return _discharge_staged(texts, timeout_s)
+
+
+def _discharge_staged(texts, timeout_s):
+    """Dropping hypotheses is sound for proving, so: all hyps (without, then with the optional groups); if that
+    is undecided, relevance-filtered subsets.  Only a model of *all* hypotheses counts as a refutation."""
+    total = 0.0
+    r = run_one(texts["all"], timeout_s)
+    total += r["time"]
+    stage = "all"
+    if r["verdict"] != "unsat" and "all+opt" in texts:
+        r = run_one(texts["all+opt"], timeout_s)
+        total += r["time"]
+        stage = "all+opt"
+    if r["verdict"] == "unknown":
+        full = r
+        for k in ("cone0", "cone0+opt", "cone1", "cone1+opt"):
+            if k not in texts:
+                continue
+            r2 = run_one(texts[k], max(3, timeout_s // 2), use_cvc5=False)
+            total += r2["time"]
+            if r2["verdict"] == "unsat":
+                r2["time"] = total
+                r2["stage"] = k
+                return r2
+        # bounded counterexample search: instantiate hard (nonlinear) inputs with concrete candidates; a model of
+        # the instantiated query is a model of the original one
+        for k in sorted(t for t in texts if t.startswith("cand")):
+            txt, cand = texts[k]
+            r3 = run_one(txt, max(3, timeout_s // 2), use_cvc5=False)
+            total += r3["time"]
+            if r3["verdict"] == "sat":
+                r3["model"].update(cand)
+                r3["time"] = total
+                r3["stage"] = k
+                return r3
+        r = full
+    r["time"] = total
+    r["stage"] = stage
+    return r
+
+
+def discharge_all(obligs, timeout_s=10, workers=16):
+    """obligs: list of (hyps, opt, goal[, candidates])"""
+    prepared = [(prepare_staged(o[0], o[1], o[2], o[3] if len(o) > 3 else ()), o[4] if len(o) > 4 else None)
+                for o in obligs]
+    with ThreadPoolExecutor(max_workers=workers) as ex:
+        return list(ex.map(lambda t: discharge_staged(t[0], timeout_s, t[1]), prepared))
+
+
 def discharge(obligs, timeout_s=10, workers=16):
     """obligs: list of (name, hyps, goal). Returns list of result dicts aligned with input."""
     texts = [to_smt2(h, g) for (_, h, g) in obligs]
